@@ -23,6 +23,9 @@ ENGINES = [
      "kind_free_text": "C++17 rapidcheck drivers linked against rtrlib built from the working tree (ASan+UBSan subset, asserts on); model-based / stateful"},
 ]
 
+ENGINES.append({"name": "convsim", "path": "engine/", "serves_properties": ["C03", "C05", "C07", "C08", "C13", "C14", "C17", "C09", "C10", "C04"],
+                "kind_free_text": "conversation simulator: real rtr_fsm_start on a mock struct tr_socket, simulated clock (ld --wrap), scripted cache with mutations, independent judge/protocol model"})
+
 NOT_APPLICABLE = {}
 
 CHECKS = {
@@ -137,79 +140,93 @@ CHECKS = {
     },
     "C03": {
         "level": "exploration",
-        "rule": "TODO",
-        "assumptions": [],
-        "floor": {"quick": 50, "thorough": 500},
-        "technique": "model-based conversation testing",
-        "level_text": "TODO", "level_note": "TODO",
+        "engine": "convsim + rapidcheck",
+        "rule": "rapidcheck generates conversations for the simulator (engine/): a configuration (valid refresh/expire/retry, one of 4 interval modes, session id, serial base incl. values around 2^31 and 2^32-1, initial cache data, records of a second cache) and 0..14 steps, one per query the client completes. A step scripts: failing open() calls and time consumed in open(); how the query write behaves (whole / 1-3 byte partial writes / error / would-block / interrupted / partial-then-error); 0..2 data-version advances of the cache (toggles over a universe of 24 nested IPv4, 16 nested IPv6 records and 12 router keys, optional 120/230 bulk records), cache restarts; the response kind (correct / Cache Reset / Error Report with any code, version byte, text, encapsulated PDU, also mid-payload / no answer / one of 15 mutations of a correct response incl. a second mutation / version-0 answer / hostile-but-well-formed fields / raw bytes); recv chunking (whole, 1-byte, irregular, 7-byte); and what happens when the client waits on an empty connection (timeout, EINTR, hang-up, transport error, Serial Notify, stop+restart of the socket). After the last step the cache answers honestly. The real state machine (rtr_start -> rtr_fsm_start) runs on the mock transport with a simulated clock; an independent strict decoder + protocol model ('judge') decides what a correct client must conclude. Oracle C03: at every observation point (each open(), each completed query, stop, end) the cache's records in both tables must equal one of the model's alternatives — after a success exactly old+announced-withdrawn (delta) / exactly the announced set (reset) with serial = End of Data's; after a failure exactly the records before with the same next query, or none and a Reset Query; a success on a response the judge calls faulty is a violation; records of the other cache never change. evaluations = conversations; non-trivial = a failed response after >=1 payload PDU had been applied (undo path), or a completed reload over existing data, or a successful delta with announcements and withdrawals; distinct by hash of the script.",
+        "assumptions": ['the mock transport obeys the transport contract (never 0 bytes, never more than asked, errors as tcp_transport returns them)', 'clock = lrtr_get_monotonic_time and sleep() replaced at link time (--wrap); one FSM thread does all the work, so a run is a deterministic function of its script', 'the judge (engine/judge.hpp) is a correct reading of RFC 8210 framing and of the property statements; where the statement leaves room the weaker reading is used (DESIGN.md §10)'],
+        "floor": {"quick": 40, "thorough": 400},
+        "technique": 'model-based conversation testing (rapidcheck + simulator): history invariant over observation points, judge-decided either-or',
+        "level_text": 'Sampled exploration of multi-exchange conversations with faults at every PDU position and transport call, checked against a protocol model at every observation point.',
+        "level_note": "Trusts the judge and the record universe (52 ids + bulk). 'One response' is delimited as the client delimits it; after a fault the scripted cache stops unless the rest cannot be mistaken for a new response.",
         "stages": [{"driver": CONV,
-                    "quick": {"procs": 8, "rc": (600, 100)},
-                    "thorough": {"procs": 16, "rc": (10000, 100), "timeout": 7200}}],
+                    "quick": {"procs": 8, "rc": (500, 100)},
+                    "thorough": {"procs": 16, "rc": (15000, 100), "timeout": 7200}}],
     },
     "C05": {
         "level": "exploration",
-        "rule": "TODO",
-        "assumptions": [],
-        "floor": {"quick": 50, "thorough": 500},
-        "technique": "model-based conversation testing",
-        "level_text": "TODO", "level_note": "TODO",
+        "engine": "convsim + rapidcheck",
+        "rule": "rapidcheck generates conversations for the simulator (engine/): a configuration (valid refresh/expire/retry, one of 4 interval modes, session id, serial base incl. values around 2^31 and 2^32-1, initial cache data, records of a second cache) and 0..14 steps, one per query the client completes. A step scripts: failing open() calls and time consumed in open(); how the query write behaves (whole / 1-3 byte partial writes / error / would-block / interrupted / partial-then-error); 0..2 data-version advances of the cache (toggles over a universe of 24 nested IPv4, 16 nested IPv6 records and 12 router keys, optional 120/230 bulk records), cache restarts; the response kind (correct / Cache Reset / Error Report with any code, version byte, text, encapsulated PDU, also mid-payload / no answer / one of 15 mutations of a correct response incl. a second mutation / version-0 answer / hostile-but-well-formed fields / raw bytes); recv chunking (whole, 1-byte, irregular, 7-byte); and what happens when the client waits on an empty connection (timeout, EINTR, hang-up, transport error, Serial Notify, stop+restart of the socket). After the last step the cache answers honestly. The real state machine (rtr_start -> rtr_fsm_start) runs on the mock transport with a simulated clock; an independent strict decoder + protocol model ('judge') decides what a correct client must conclude. Oracle C05: every completed query must be the one the model predicts — Reset Query iff no session is established (initially, after Cache Reset, error code 2, expiry, stop/start, or the purge alternative), else Serial Query with exactly the session and serial of the last exchange completed by End of Data; a Cache Response / End of Data with a foreign session must not lead to success. non-trivial = >=3 queries incl. a Serial Query after a failed exchange, or a session-mismatch response, or a stop/start cycle; distinct by hash of the script.",
+        "assumptions": ['the mock transport obeys the transport contract (never 0 bytes, never more than asked, errors as tcp_transport returns them)', 'clock = lrtr_get_monotonic_time and sleep() replaced at link time (--wrap); one FSM thread does all the work, so a run is a deterministic function of its script', 'the judge (engine/judge.hpp) is a correct reading of RFC 8210 framing and of the property statements; where the statement leaves room the weaker reading is used (DESIGN.md §10)'],
+        "floor": {"quick": 40, "thorough": 400},
+        "technique": 'model-based conversation testing (rapidcheck + simulator): every outbound query compared with the protocol model',
+        "level_text": "Sampled exploration of conversations; every query PDU on the wire is compared with the model's prediction.",
+        "level_note": 'Trusts the judge; serial arithmetic is exercised around 2^31 and 2^32-1 through the serial bases.',
         "stages": [{"driver": CONV,
-                    "quick": {"procs": 8, "rc": (600, 100)},
-                    "thorough": {"procs": 16, "rc": (10000, 100), "timeout": 7200}}],
+                    "quick": {"procs": 8, "rc": (500, 100)},
+                    "thorough": {"procs": 16, "rc": (15000, 100), "timeout": 7200}}],
     },
     "C07": {
         "level": "exploration",
-        "rule": "TODO",
-        "assumptions": [],
-        "floor": {"quick": 50, "thorough": 500},
-        "technique": "model-based conversation testing",
-        "level_text": "TODO", "level_note": "TODO",
+        "engine": "convsim + rapidcheck",
+        "rule": "rapidcheck generates conversations for the simulator (engine/): a configuration (valid refresh/expire/retry, one of 4 interval modes, session id, serial base incl. values around 2^31 and 2^32-1, initial cache data, records of a second cache) and 0..14 steps, one per query the client completes. A step scripts: failing open() calls and time consumed in open(); how the query write behaves (whole / 1-3 byte partial writes / error / would-block / interrupted / partial-then-error); 0..2 data-version advances of the cache (toggles over a universe of 24 nested IPv4, 16 nested IPv6 records and 12 router keys, optional 120/230 bulk records), cache restarts; the response kind (correct / Cache Reset / Error Report with any code, version byte, text, encapsulated PDU, also mid-payload / no answer / one of 15 mutations of a correct response incl. a second mutation / version-0 answer / hostile-but-well-formed fields / raw bytes); recv chunking (whole, 1-byte, irregular, 7-byte); and what happens when the client waits on an empty connection (timeout, EINTR, hang-up, transport error, Serial Notify, stop+restart of the socket). After the last step the cache answers honestly. The real state machine (rtr_start -> rtr_fsm_start) runs on the mock transport with a simulated clock; an independent strict decoder + protocol model ('judge') decides what a correct client must conclude. Oracle C07: at every open() entry, if more than expire_interval (read from the socket) has passed on the simulated clock since the last success the model saw, no record of the socket may remain and the next query must be a Reset Query; after every rtr_stop (mid-conversation and final) no record of the socket remains; the other cache's records are intact. non-trivial = an open() later than expire after >=1 success, or a stop/start cycle; distinct by hash of the script.",
+        "assumptions": ['the mock transport obeys the transport contract (never 0 bytes, never more than asked, errors as tcp_transport returns them)', 'clock = lrtr_get_monotonic_time and sleep() replaced at link time (--wrap); one FSM thread does all the work, so a run is a deterministic function of its script', 'the judge (engine/judge.hpp) is a correct reading of RFC 8210 framing and of the property statements; where the statement leaves room the weaker reading is used (DESIGN.md §10)'],
+        "floor": {"quick": 40, "thorough": 400},
+        "technique": 'model-based conversation testing with an owned clock: expiry/stop invariants at every open() and stop',
+        "level_text": 'Sampled exploration of unreachability patterns (failed opens, slow opens up to 2x expire, timeouts, interrupted reloads) under all interval settings.',
+        "level_note": "last_success is the model's (time of the last ESTABLISHED callback), not the socket's field, so a lost timestamp is visible.",
         "stages": [{"driver": CONV,
-                    "quick": {"procs": 8, "rc": (600, 100)},
-                    "thorough": {"procs": 16, "rc": (10000, 100), "timeout": 7200}}],
+                    "quick": {"procs": 8, "rc": (500, 100)},
+                    "thorough": {"procs": 16, "rc": (15000, 100), "timeout": 7200}}],
     },
     "C08": {
         "level": "exploration",
-        "rule": "TODO",
-        "assumptions": [],
-        "floor": {"quick": 50, "thorough": 500},
-        "technique": "model-based conversation testing",
-        "level_text": "TODO", "level_note": "TODO",
+        "engine": "convsim + rapidcheck",
+        "rule": "rapidcheck generates conversations for the simulator (engine/): a configuration (valid refresh/expire/retry, one of 4 interval modes, session id, serial base incl. values around 2^31 and 2^32-1, initial cache data, records of a second cache) and 0..14 steps, one per query the client completes. A step scripts: failing open() calls and time consumed in open(); how the query write behaves (whole / 1-3 byte partial writes / error / would-block / interrupted / partial-then-error); 0..2 data-version advances of the cache (toggles over a universe of 24 nested IPv4, 16 nested IPv6 records and 12 router keys, optional 120/230 bulk records), cache restarts; the response kind (correct / Cache Reset / Error Report with any code, version byte, text, encapsulated PDU, also mid-payload / no answer / one of 15 mutations of a correct response incl. a second mutation / version-0 answer / hostile-but-well-formed fields / raw bytes); recv chunking (whole, 1-byte, irregular, 7-byte); and what happens when the client waits on an empty connection (timeout, EINTR, hang-up, transport error, Serial Notify, stop+restart of the socket). After the last step the cache answers honestly. The real state machine (rtr_start -> rtr_fsm_start) runs on the mock transport with a simulated clock; an independent strict decoder + protocol model ('judge') decides what a correct client must conclude. Oracle C08: once the script is used up the cache answers every query correctly (Cache Reset for a foreign session / unknown serial); the client must reach ESTABLISHED with records equal to the cache's data within expire+refresh+4*retry+600 s of simulated time, must never make 20000 transport calls without clock progress or input consumption, and must not complete 25 successful exchanges without converging. non-trivial = >=2 failed exchanges, >=1 success and convergence observed; distinct by hash of the script.",
+        "assumptions": ['the mock transport obeys the transport contract (never 0 bytes, never more than asked, errors as tcp_transport returns them)', 'clock = lrtr_get_monotonic_time and sleep() replaced at link time (--wrap); one FSM thread does all the work, so a run is a deterministic function of its script', 'the judge (engine/judge.hpp) is a correct reading of RFC 8210 framing and of the property statements; where the statement leaves room the weaker reading is used (DESIGN.md §10)'],
+        "floor": {"quick": 40, "thorough": 400},
+        "technique": 'fault-schedule generation (rapidcheck) + bounded-time convergence oracle under a simulated clock',
+        "level_text": 'Liveness decided as bounded-time convergence after a finite generated fault prefix; sampled over fault schedules.',
+        "level_note": "Hitting the 150000-call step cap is counted as inconclusive, never as a violation. In conversations that went 'weak' (hostile payload) only termination is required.",
         "stages": [{"driver": CONV,
-                    "quick": {"procs": 8, "rc": (600, 100)},
-                    "thorough": {"procs": 16, "rc": (10000, 100), "timeout": 7200}}],
+                    "quick": {"procs": 8, "rc": (500, 100)},
+                    "thorough": {"procs": 16, "rc": (15000, 100), "timeout": 7200}}],
     },
     "C13": {
         "level": "exploration",
-        "rule": "TODO",
-        "assumptions": [],
-        "floor": {"quick": 50, "thorough": 500},
-        "technique": "model-based conversation testing",
-        "level_text": "TODO", "level_note": "TODO",
+        "engine": "convsim + rapidcheck",
+        "rule": "rapidcheck generates conversations for the simulator (engine/): a configuration (valid refresh/expire/retry, one of 4 interval modes, session id, serial base incl. values around 2^31 and 2^32-1, initial cache data, records of a second cache) and 0..14 steps, one per query the client completes. A step scripts: failing open() calls and time consumed in open(); how the query write behaves (whole / 1-3 byte partial writes / error / would-block / interrupted / partial-then-error); 0..2 data-version advances of the cache (toggles over a universe of 24 nested IPv4, 16 nested IPv6 records and 12 router keys, optional 120/230 bulk records), cache restarts; the response kind (correct / Cache Reset / Error Report with any code, version byte, text, encapsulated PDU, also mid-payload / no answer / one of 15 mutations of a correct response incl. a second mutation / version-0 answer / hostile-but-well-formed fields / raw bytes); recv chunking (whole, 1-byte, irregular, 7-byte); and what happens when the client waits on an empty connection (timeout, EINTR, hang-up, transport error, Serial Notify, stop+restart of the socket). After the last step the cache answers honestly. The real state machine (rtr_start -> rtr_fsm_start) runs on the mock transport with a simulated clock; an independent strict decoder + protocol model ('judge') decides what a correct client must conclude. Oracle C13: the model version starts at 1 and is lowered only by (a) a non-error first PDU of a connection with version 0, (b) an Unsupported-Version report with a lower supported version (then open() must follow with no clock progress), (c) a hang-up without any byte while no session exists (must lower) / other hang-ups without session (may lower). Every PDU the client sends must carry the model version; a success on a response with a wrong-version PDU or an End of Data in the other version's format is a violation. non-trivial = a conversation with a downgrade or a wrong-version PDU; distinct by hash of the script.",
+        "assumptions": ['the mock transport obeys the transport contract (never 0 bytes, never more than asked, errors as tcp_transport returns them)', 'clock = lrtr_get_monotonic_time and sleep() replaced at link time (--wrap); one FSM thread does all the work, so a run is a deterministic function of its script', 'the judge (engine/judge.hpp) is a correct reading of RFC 8210 framing and of the property statements; where the statement leaves room the weaker reading is used (DESIGN.md §10)'],
+        "floor": {"quick": 40, "thorough": 400},
+        "technique": 'model-based conversation testing: version byte of every sent PDU vs the model, downgrade triggers generated',
+        "level_text": 'Sampled exploration over version bytes 0/1/2/255 on every PDU position, error reports with code 4, hang-ups, over several reconnects.',
+        "level_note": 'Not demanded: lowering on a first PDU that is an Error Report (ambiguous in the statement).',
         "stages": [{"driver": CONV,
-                    "quick": {"procs": 8, "rc": (600, 100)},
-                    "thorough": {"procs": 16, "rc": (10000, 100), "timeout": 7200}}],
+                    "quick": {"procs": 8, "rc": (500, 100)},
+                    "thorough": {"procs": 16, "rc": (15000, 100), "timeout": 7200}}],
     },
     "C14": {
         "level": "exploration",
-        "rule": "TODO",
-        "assumptions": [],
-        "floor": {"quick": 50, "thorough": 500},
-        "technique": "model-based conversation testing",
-        "level_text": "TODO", "level_note": "TODO",
+        "engine": "convsim + rapidcheck",
+        "rule": "rapidcheck generates conversations for the simulator (engine/): a configuration (valid refresh/expire/retry, one of 4 interval modes, session id, serial base incl. values around 2^31 and 2^32-1, initial cache data, records of a second cache) and 0..14 steps, one per query the client completes. A step scripts: failing open() calls and time consumed in open(); how the query write behaves (whole / 1-3 byte partial writes / error / would-block / interrupted / partial-then-error); 0..2 data-version advances of the cache (toggles over a universe of 24 nested IPv4, 16 nested IPv6 records and 12 router keys, optional 120/230 bulk records), cache restarts; the response kind (correct / Cache Reset / Error Report with any code, version byte, text, encapsulated PDU, also mid-payload / no answer / one of 15 mutations of a correct response incl. a second mutation / version-0 answer / hostile-but-well-formed fields / raw bytes); recv chunking (whole, 1-byte, irregular, 7-byte); and what happens when the client waits on an empty connection (timeout, EINTR, hang-up, transport error, Serial Notify, stop+restart of the socket). After the last step the cache answers honestly. The real state machine (rtr_start -> rtr_fsm_start) runs on the mock transport with a simulated clock; an independent strict decoder + protocol model ('judge') decides what a correct client must conclude. Oracle C14: the bytes handed to send() (under whole and 1-3 byte partial writes) must parse into complete PDUs of type 1/2/10 with the model version, length field = bytes <= own maximum; for each Error Report 16+enc+text = length, text printable, the encapsulated bytes are a byte-exact substring of what the cache sent on this connection and not an Error Report; for a single judge-tagged violation after which the cache fell silent: exactly one report, with the class's code (too short/long/size/flags/session/unexpected 0, version 8, duplicate 7, unknown withdrawal 6, unknown type 0 or 5) and an encapsulated PDU that is a prefix of the offender; no report on a valid accepted response. non-trivial = conversation in which the client sent >=1 Error Report; distinct by hash of the script.",
+        "assumptions": ['the mock transport obeys the transport contract (never 0 bytes, never more than asked, errors as tcp_transport returns them)', 'clock = lrtr_get_monotonic_time and sleep() replaced at link time (--wrap); one FSM thread does all the work, so a run is a deterministic function of its script', 'the judge (engine/judge.hpp) is a correct reading of RFC 8210 framing and of the property statements; where the statement leaves room the weaker reading is used (DESIGN.md §10)'],
+        "floor": {"quick": 40, "thorough": 400},
+        "technique": 'model-based conversation testing: outbound byte log parsed by an independent decoder; tagged-violation completeness',
+        "level_text": 'Sampled exploration of violation class x PDU type x position with soundness (all conversations) and completeness (tagged single violations) oracles.',
+        "level_note": 'Uninitialised bytes are looked for by the printable-text rule and by the dirty-pattern determinism stage (stack/heap filled with 0x00 vs 0xFF), not with MSan.',
         "stages": [{"driver": CONV,
-                    "quick": {"procs": 8, "rc": (600, 100)},
-                    "thorough": {"procs": 16, "rc": (10000, 100), "timeout": 7200}}],
+                    "quick": {"procs": 8, "rc": (500, 100)},
+                    "thorough": {"procs": 16, "rc": (15000, 100), "timeout": 7200}}],
     },
     "C17": {
         "level": "exploration",
-        "rule": "TODO",
-        "assumptions": [],
-        "floor": {"quick": 50, "thorough": 500},
-        "technique": "model-based conversation testing",
-        "level_text": "TODO", "level_note": "TODO",
+        "engine": "convsim + rapidcheck",
+        "rule": "rapidcheck generates conversations for the simulator (engine/): a configuration (valid refresh/expire/retry, one of 4 interval modes, session id, serial base incl. values around 2^31 and 2^32-1, initial cache data, records of a second cache) and 0..14 steps, one per query the client completes. A step scripts: failing open() calls and time consumed in open(); how the query write behaves (whole / 1-3 byte partial writes / error / would-block / interrupted / partial-then-error); 0..2 data-version advances of the cache (toggles over a universe of 24 nested IPv4, 16 nested IPv6 records and 12 router keys, optional 120/230 bulk records), cache restarts; the response kind (correct / Cache Reset / Error Report with any code, version byte, text, encapsulated PDU, also mid-payload / no answer / one of 15 mutations of a correct response incl. a second mutation / version-0 answer / hostile-but-well-formed fields / raw bytes); recv chunking (whole, 1-byte, irregular, 7-byte); and what happens when the client waits on an empty connection (timeout, EINTR, hang-up, transport error, Serial Notify, stop+restart of the socket). After the last step the cache answers honestly. The real state machine (rtr_start -> rtr_fsm_start) runs on the mock transport with a simulated clock; an independent strict decoder + protocol model ('judge') decides what a correct client must conclude. Oracle C17: after every success the socket's (refresh, retry, expire) must equal the value the interval mode prescribes for what End of Data carried (values from a table of all range boundaries +-1, 0, 2^32-1); after a failure that read a well-formed End of Data either the previous or the prescribed values; version-0 End of Data changes nothing; in ESTABLISHED the first recv timeout must equal max(0, last_success+refresh-now); after a timeout or a Serial Notify the next transport call must be the send of a Serial Query. rtr_init's range check is decided by the intervals driver stage. non-trivial = End of Data with a field outside or on the boundary of its range, or a Serial Notify / refresh expiry in ESTABLISHED; distinct by hash of the script.",
+        "assumptions": ['the mock transport obeys the transport contract (never 0 bytes, never more than asked, errors as tcp_transport returns them)', 'clock = lrtr_get_monotonic_time and sleep() replaced at link time (--wrap); one FSM thread does all the work, so a run is a deterministic function of its script', 'the judge (engine/judge.hpp) is a correct reading of RFC 8210 framing and of the property statements; where the statement leaves room the weaker reading is used (DESIGN.md §10)'],
+        "floor": {"quick": 40, "thorough": 400},
+        "technique": 'model-based conversation testing + boundary-value generation for End of Data intervals; exact timeout oracle under an owned clock',
+        "level_text": 'Sampled exploration over boundary interval values x 4 modes x 2 versions within whole conversations.',
+        "level_note": 'The per-field application order inside the library (expire, refresh, retry) is tolerated for failed exchanges.',
         "stages": [{"driver": CONV,
-                    "quick": {"procs": 8, "rc": (600, 100)},
-                    "thorough": {"procs": 16, "rc": (10000, 100), "timeout": 7200}}],
+                    "quick": {"procs": 8, "rc": (500, 100)},
+                    "thorough": {"procs": 16, "rc": (15000, 100), "timeout": 7200}}],
     },
 }
